@@ -99,7 +99,14 @@ def main():
     sh(["rm", "-rf", ROOT]); sh(["git", "-C", "/repo", "worktree", "prune"])
     out = {"at": time.strftime("%Y-%m-%d %H:%M"), "verif_commit": sh(["git", "-C", VERIF, "rev-parse", "--short", "HEAD"])[1].strip(),
            "seeds": [1] if benign else seeds, "wall_s": round(time.time() - t0), "results": dict(sorted(res.items()))}
-    json.dump(out, open(os.path.join(VERIF, "seeded", "BENIGN.json" if benign else "SWEEP.json"), "w"), indent=1)
+    path = os.path.join(VERIF, "seeded", "BENIGN.json" if benign else "SWEEP.json")
+    if only and os.path.exists(path):
+        # a partial run updates the rows it re-ran and keeps the others (each row keeps no commit of its own:
+        # `partial_update` says so)
+        old = json.load(open(path))
+        merged = dict(old.get("results", {})); merged.update(out["results"])
+        out["results"] = dict(sorted(merged.items())); out["partial_update"] = only
+    json.dump(out, open(path, "w"), indent=1)
     if benign:
         bad = {n: [k for k, v in r.items() if v != "quiet"] for n, r in res.items()}
         bad = {n: v for n, v in bad.items() if v}
